@@ -1,4 +1,6 @@
 #!/bin/bash
+# evidence of runs against modified code never overwrites the committed evidence of the unchanged tree
+export VERIF_EVIDENCE_DIR=$(mktemp -d /tmp/verif-ev.XXXXXX)
 # tools/mutant_run.sh <patch> <Cxx> [tier]  -- apply a patch to a scratch copy of the repository (outside /repo and
 # /verif), run the check against it, remove the copy.  Prints the check's output and its exit status.
 set -u
